@@ -401,9 +401,28 @@ def run_witness(binpath, w):
                 with ThreadPoolExecutor(max_workers=8) as ex:
                     ran = list(ex.map(run, list(seen.items())))
                 n_wrapped += len(ran)
+                def n_errors(path_):
+                    try:
+                        pc = subprocess.run([binpath, "check", "--json", path_], capture_output=True, text=True, timeout=60, cwd=tmpdir)
+                    except subprocess.TimeoutExpired:
+                        return 10 ** 6
+                    if pc.returncode == 101 or "panicked at" in pc.stderr:
+                        return 10 ** 6
+                    k = 0
+                    for ln in pc.stdout.split("\n"):
+                        try:
+                            if json.loads(ln).get("severity") == "error":
+                                k += 1
+                        except Exception:
+                            pass
+                    return k
+                e0 = n_errors(f0) if w.get("check_errors_not_more") else 0
                 for o, text, r1 in ran:
+                    e1 = n_errors(os.path.join(tmpdir, "w%d_at%d.gdn" % (pi, o))) if w.get("check_errors_not_more") else 0
                     if r1 is None:
                         why = "timed out"
+                    elif e1 > e0:
+                        why = "`check` reports %d errors, the original %d" % (e1, e0)
                     elif (r1.stdout, r1.returncode) != (r0.stdout, r0.returncode):
                         why = "prints %r / status %s, the original %r / status %s" % (r1.stdout[-120:], r1.returncode, r0.stdout[-120:], r0.returncode)
                     else:
